@@ -23,6 +23,55 @@ func runC02(c *Ctx) {
 	txts := texts("ab", 5)
 	runGramC02(c, "D4", gramD4(false), c.Pick(5, 5), txts)
 	runGramC02(c, "D4min", gramD4min(), c.Pick(5, 5), txts)
+	// D4in: a three-way choice point (an `in` list with overlapping items, or a
+	// nested `or`) in front of every capture program: bindings made behind one
+	// alternative must not survive into the next one
+	in3 := []*T{
+		{K: IN, Items: []Item{{K: 0, S: "a"}, {K: 0, S: "ab"}, {K: 0, S: "abb"}}},
+		{K: IN, Items: []Item{{K: 0, S: "abb"}, {K: 0, S: "a"}, {K: 0, S: "ab"}, {K: 0, S: "b"}}},
+		or(lit("a"), or(lit("ab"), lit("abb"))),
+	}
+	gin := gramD4(true)
+	for n := 2; n <= c.Pick(4, 5); n++ {
+		if !c.Level("D4in:n=" + itoa(n)) {
+			return
+		}
+		for _, raw := range gin.Seqs(n) {
+			body := instantiate(raw, true)
+			if body == nil {
+				continue
+			}
+			for _, pre := range in3 {
+				p := &Prog{Body: append([]*T{pre}, body...)}
+				if c.Unit(func() string { return progDesc(p) }) {
+					c.Count("programs", 1)
+					semUnit(c, "C02", p, txts, true, false)
+				}
+			}
+		}
+	}
+	// D4in2: the same three-way choice points, a small capture grammar behind them and a
+	// closing literal that only the last alternative can reach (texts over {a,b,c})
+	g2 := &Gram{Atoms: []*T{lit("a"), class("any", false)}, Or: true, Cap: true, Refs: 1, Loops: []LoopKind{{0, 1, false}, {0, -1, false}}}
+	tabc := texts("abc", 4)
+	for n := 2; n <= c.Pick(5, 6); n++ {
+		if !c.Level("D4in2:n=" + itoa(n)) {
+			return
+		}
+		for _, raw := range g2.Seqs(n) {
+			body := instantiate(raw, true)
+			if body == nil {
+				continue
+			}
+			for _, pre := range in3 {
+				p := &Prog{Body: append(append([]*T{pre}, body...), lit("c"))}
+				if c.Unit(func() string { return progDesc(p) }) {
+					c.Count("programs", 1)
+					semUnit(c, "C02", p, tabc, true, false)
+				}
+			}
+		}
+	}
 	// captures inside subroutines / calls / globals
 	if c.Level("D4s:subroutines") {
 		for _, p := range d4sPrograms() {
